@@ -82,6 +82,7 @@ def cases(tier, rng):
             fns = [dict(KEYF, flavour="async")] if params.get("key") is not None else ([dict(PAIR, flavour="def")] if tool == "reduce" else [])
             yield {"tool": tool, "params": params, "srcs": [{"kind": kind, "script": script}], "fns": fns,
                    "cons": {"fin": "exhaust"}}
+    yield from s1.odd_value_cases(tier, rng, KINDS, 300 if tier == "quick" else 5000, tools_subset=["all", "any", "list", "tuple"])
     nr = 3000 if tier == "quick" else 50000
     g = grid(tier)
     names = list(g)
